@@ -39,7 +39,9 @@ theorem Q_step (a : Agent) (ev : Ev) (q : Q a) : Q (step a ev).1 := by
     simp only [step]
     split
     · exact q
-    · exact Q_runForced _ _
+    · split
+      · exact q
+      · exact Q_runForced _ _
   | start now ctl ru rp =>
     simp only [step]
     repeat' split
@@ -101,7 +103,9 @@ theorem tid_step (a : Agent) (ev : Ev) : TidFrame a (step a ev).1 := by
     simp only [step]
     split
     · exact TidFrame.refl _
-    · exact (tid_addRemoteCandidate _ _).trans (tid_runForced _ _)
+    · split
+      · exact TidFrame.refl _
+      · exact (tid_addRemoteCandidate _ _).trans (tid_runForced _ _)
   | start now ctl ru rp =>
     simp only [step]
     repeat' split
